@@ -51,6 +51,18 @@ func tzlessAvailable() bool {
 	return exec.Command("unshare", "-m", "sh", "-c", "mount -t tmpfs none /usr/share/zoneinfo").Run() == nil
 }
 
+// ownNetwork: children run in a network namespace of their own.
+var ownNetwork bool
+
+// ownNetworkAvailable reports whether a process can be given a network namespace of
+// its own with a working loopback interface.
+func ownNetworkAvailable() bool {
+	if _, err := exec.LookPath("unshare"); err != nil {
+		return false
+	}
+	return exec.Command("unshare", "-n", "sh", "-c", "ip link set lo up").Run() == nil
+}
+
 // tzlessCommand wraps a command so that it runs without a time zone database.
 func tzlessCommand(bin string, args []string) *exec.Cmd {
 	all := append([]string{"-m", "sh", "-c", `mount -t tmpfs none /usr/share/zoneinfo && unset ZONEINFO && exec "$0" "$@"`, bin}, args...)
@@ -263,6 +275,9 @@ func main() {
 				noTZ[0] = true
 			}
 		}
+		if cfg.OwnNetwork && ownNetworkAvailable() {
+			ownNetwork = true
+		}
 		res, crashed := runChild(id, cfg, vmon, work, tier, seed, 0, 1, replay)
 		for _, v := range crashed {
 			if v.Signature == "infrastructure" {
@@ -300,6 +315,15 @@ func main() {
 	par := cfg.Parallel
 	if par < 1 {
 		par = 8
+	}
+	netNote := ""
+	if cfg.OwnNetwork {
+		if ownNetworkAvailable() {
+			ownNetwork = true
+			netNote = "every child ran in a network namespace of its own (its ports cannot collide with another process's)"
+		} else {
+			netNote = "children shared the machine's loopback network (unshare -n not permitted here)"
+		}
 	}
 	tzNote := ""
 	if cfg.NoTZChild {
@@ -429,7 +453,7 @@ func main() {
 		"hook_files":          ov.Files,
 		"build_s":             round2(buildS),
 		"race_detector":       cfg.Race || cfg.BinRace || cfg.PreludeRace,
-		"notes":               append(notes, tzNote),
+		"notes":               nonEmpty(append(notes, tzNote, netNote)),
 	}
 	if len(inconcl) > 0 {
 		n := inconcl
@@ -558,6 +582,10 @@ func runChild(id string, cfg propCfg, vmon, work, tier string, seed uint64, batc
 	if noTZ[batch] {
 		cmd = tzlessCommand(vmon, args)
 		env = append(env, "VMON_NOTZ=1")
+	} else if ownNetwork {
+		all := append([]string{"-n", "sh", "-c", `ip link set lo up && exec "$0" "$@"`, vmon}, args...)
+		cmd = exec.Command("unshare", all...)
+		env = append(env, "VMON_OWN_NETWORK=1")
 	}
 	cmd.Dir = cdir
 	env = append(env, "GORACE=halt_on_error=1 exitcode=66", "GOTRACEBACK=all", "VERIF_REPO="+repoDir)
@@ -742,4 +770,14 @@ func setup() {
 		}
 	}
 	fmt.Printf("setup: ok, %d hook sites in %d files\n", len(ov.Sites), len(ov.Files))
+}
+
+func nonEmpty(in []string) []string {
+	out := []string{}
+	for _, s := range in {
+		if s != "" {
+			out = append(out, s)
+		}
+	}
+	return out
 }
